@@ -390,3 +390,174 @@ def rowtags(F, R):
         R.ob('C14.rows', ok, {'row': Facts.short(F.strs[r['t']], 90), 'tag': tag, 'guard_call': hasg, 'action_call': hasa})
         if not ok:
             R.find('C14.rows', (r['loc'].split(':')[0], r['q']), 'tag:' + tag, 'front-end row %s: %s' % (Facts.short(F.strs[r['t']], 120), why), where=r['loc'], instance=Facts.short(F.strs[r['t']], 200))
+
+# ------------------------------------------------------------------ sibling agreement back <-> back11 (C13.siblings)
+
+def path_signature(f, p):
+    """abstract behaviour of one path: resolved library callees (plain names), enumerators and literal arguments, member writes"""
+    toks = []
+    for i in f.path_nodes(p):
+        n = f.nodes[i]
+        if not n: continue
+        k = n['k']
+        if k == 'call' and n.get('org') == 1 and not n.get('op'):
+            toks.append('call:' + n['n'])
+        elif k == 'call' and n.get('op') and n.get('org') == 1 and n['op'] not in ('()',):
+            toks.append('op' + n['op'])
+        elif k == 'ref' and n.get('dk') == 'enum':
+            toks.append('enum:' + n['n'])
+        elif k == 'asg':
+            m = f.base_member(n['lhs'])
+            if m: toks.append('write:' + m + n['op'])
+        elif k == 'ret':
+            toks.append('ret')
+        elif k == 'call' and 'fk' not in n:
+            toks.append('icall')
+    return tuple(toks)
+
+@rule('siblings')
+def siblings(F, R):
+    """exports, per function pattern of back / back11 state_machine.hpp (dispatch_table.hpp), the set of abstract path signatures over all
+    instantiations in this TU; the aggregate compares the two back-ends"""
+    from rules_core import backend_of
+    out = {}
+    for f in F.funcs:
+        be = backend_of(f)
+        if be not in ('back', 'back11') or not f.blocks: continue
+        if not (f.file.endswith('/state_machine.hpp') or f.file.endswith('/dispatch_table.hpp')): continue
+        key = f.q.replace('boost::msm::back11::', 'B::').replace('boost::msm::back::', 'B::')
+        nparams = len(f.d['params'])
+        sigs = set()
+        try:
+            for p in f.paths(max_paths=200, edge_bound=1):
+                if f.aborts(p): continue
+                sigs.add(path_signature(f, p))
+        except RecursionError:
+            continue
+        # compare like with like: the same front-end machine (back-end name normalised) and the same function template arguments
+        def nrm(x):
+            x = str(x).replace('boost::msm::back11::', 'boost::msm::back::')
+            return strip_cvref(x)
+        ca = f.cls_args('state_machine') or f.cls_args('dispatch_table') or []
+        if len(ca) > 1 and any('favor_compile_time' in str(a) for a in ca): continue
+        inst = (nrm(ca[0]) if ca else '') + ' | ' + ', '.join(nrm(t) for t in (f.targs() or [])) + ' | ' + ', '.join(nrm(a) for a in (f.cls_args() or []) if f.cls not in ('state_machine', 'dispatch_table'))
+        out.setdefault(key + '/' + str(nparams), {}).setdefault(inst, {}).setdefault(be, set()).update(sigs)
+        R.seen(f)
+    R.export('siblings', {k: {inst: {b: sorted(v) for b, v in d.items()} for inst, d in dd.items() if len(d) == 2} for k, dd in out.items()})
+
+# differences between back and back11 that are part of back11's design (perfect forwarding, upper-fsm pointer); token-level
+SIBLING_ACCEPTED = {
+}
+
+from engine import aggregate
+@aggregate('siblings_cmp')
+def siblings_cmp(exports, M, tier):
+    n = 0; pats = set()
+    for tu, data in sorted(exports.get('siblings', {}).items()):
+        for k, dd in sorted(data.items()):
+            for inst, d in sorted(dd.items()):
+                if 'back' not in d or 'back11' not in d: continue
+                n += 1; pats.add(k)
+                def norm(sig): return tuple(t for t in sig if t not in SIBLING_IGNORE_TOKENS)
+                na, nb = {norm(tuple(x)) for x in d['back']}, {norm(tuple(x)) for x in d['back11']}
+                ok = na == nb or k in SIBLING_ACCEPTED
+                M.ob('C13.siblings', ok, {'function': k, 'instance': Facts.short(inst, 120), 'paths': len(na)} if n < 4 else None)
+                if not ok:
+                    M.find('C13.siblings', ('boost/msm/back11/state_machine.hpp', k.split('/')[0]), 'diverge', 'back and back11 instantiations of %s for the same machine and arguments differ in their abstract behaviour: only in back %s ; only in back11 %s' % (k, sorted(na - nb)[:1], sorted(nb - na)[:1]), where='boost/msm/back*/' + ('dispatch_table.hpp' if 'dispatch_table' in k else 'state_machine.hpp'), instance=Facts.short(inst, 200) + ' (' + tu + ')')
+    M.anchor('sibling-patterns', len(pats))
+    M.anchor('sibling-pairs', n)
+
+SIBLING_IGNORE_TOKENS = {'call:forward', 'call:move'}
+
+def components(t):
+    """'a::b<x>::c<y,z>::d' -> [('a::b', [x]), ('c', [y,z]), ('d', None)]"""
+    out = []
+    rest = t
+    while rest:
+        head, args, rest2 = parse_type(rest)
+        if args is None:
+            out.append((head, None)); break
+        out.append((head, args))
+        rest = rest2.strip()
+        if rest.startswith('::'): rest = rest[2:]
+        else: break
+    return out
+
+def norm_mp11(t):
+    comps = components(t)
+    if not comps: return ('other', t)
+    name, args = comps[-1]
+    nm = name.split('::')[-1]
+    if nm == 'forward_transition' and args: return ('forward', args[0])
+    if nm in ('transition', 'internal_transition') and args: return ('row', args[0])
+    if nm == 'transition_chain' and args and len(args) >= 3:
+        return ('chain', [norm_mp11(x) for x in (type_list(args[2]) or [])])
+    return ('other', t)
+
+@rule('plans_mp11')
+def plans_mp11(F, R):
+    """backmp11 favor_runtime_speed (flat_fold and function_pointer_array share dispatch_base): merged_transitions of every
+    instantiated dispatch_table<SM,Event> equals the oracle from the front-end declarations (same definition as for back)."""
+    M = Model(F)
+    memo = {}
+    def handles(fe, ev, depth=0):
+        key = (fe, ev)
+        if key in memo: return memo[key]
+        memo[key] = False
+        rows = M.rows(fe)
+        if rows is None or depth > 6: return None
+        r = False
+        for row in rows + (M.rows(fe, 'internal_transition_table') or []):
+            if row['evt'] and M.event_matches(row['evt'], ev, 'frs'): r = True
+        for s in M.states(fe):
+            for row in (M.rows(s, 'internal_transition_table') or []):
+                if row['evt'] and M.event_matches(row['evt'], ev, 'frs'): r = True
+            m = M.machine_of(s)
+            if m and handles(m.fe, ev, depth + 1): r = True
+        memo[key] = r
+        return r
+    merged = {}
+    for r in F.records:
+        if r['n'] != 'dispatch_base' or not r['loc'].startswith('boost/msm/backmp11/detail/favor_runtime_speed.hpp'): continue
+        if 'merged_transitions' not in r['tds']: continue
+        comps = components(F.strs[r['t']])
+        dt = [c for c in comps if c[0].split('::')[-1] == 'dispatch_table' and c[1]]
+        if not dt: continue
+        merged[(strip_cvref(dt[-1][1][0]), strip_cvref(dt[-1][1][1]))] = r
+    # every (machine, event) the machine is asked to process: instantiations of do_process_event<Event> on state_machine_base<FE,Config,Derived>
+    pairs = set(merged)
+    from rules_core import backend_of
+    for f in F.funcs:
+        if f.n == 'do_process_event' and f.cls == 'state_machine_base' and backend_of(f) == 'backmp11':
+            ca = f.cls_args('state_machine_base'); ta = f.targs()
+            if ca and len(ca) >= 3 and ta:
+                mm = M.machine_of(str(ca[2]))
+                if mm and mm.policy == 'frs': pairs.add((strip_cvref(str(ca[2])), strip_cvref(str(ta[0]))))
+    for (sm_t, ev) in sorted(pairs):
+        r = merged.get((sm_t, ev))
+        m = M.machine_of(sm_t)
+        if m is None or m.policy != 'frs': continue
+        rows = M.rows(m.fe)
+        if rows is None: continue
+        R.anchor('plan-table:backmp11')
+        cells = {}
+        loc = r['loc'] if r else 'boost/msm/backmp11/detail/favor_runtime_speed.hpp'
+        for tr in ((type_list(F.strs[r['tds']['merged_transitions']]) or []) if r else []):
+            c = norm_mp11(tr)
+            rec = F.rec_by_type(tr)
+            st = F.strs[rec['tds']['current_state_type']] if rec and 'current_state_type' in rec['tds'] else None
+            if st is None: continue
+            cells[strip_cvref(st)] = flat(c)
+        for st in M.states(m.fe):
+            exp = []
+            sub = M.machine_of(st)
+            if sub and handles(sub.fe, ev): exp.append(('forward', st))
+            internal = [x for x in (M.rows(st, 'internal_transition_table') or []) if x['evt'] and M.event_matches(x['evt'], ev, 'frs')] if not sub else []
+            exp += [('row', x['type']) for x in reversed(internal)]
+            own = [x for x in rows if strip_cvref(M.source_state(x) or '') == st and x['evt'] and M.event_matches(x['evt'], ev, 'frs')]
+            exp += [('row', x['type']) for x in reversed(own)]
+            got = cells.get(st, [])
+            ok = got == exp
+            R.ob('C01.plan', ok, {'machine': Facts.short(m.fe, 50), 'event': Facts.short(ev, 30), 'state': Facts.short(st, 40), 'plan': [(k, Facts.short(v, 50)) for k, v in got]})
+            if not ok:
+                R.find('C01.plan', ('boost/msm/backmp11/detail/favor_runtime_speed.hpp', 'boost::msm::backmp11::detail::compile_policy_impl::dispatch_table'), 'plan', 'candidates generated for state %s on event %s are %s, the declarations give %s' % (Facts.short(st, 50), Facts.short(ev, 40), [(k, Facts.short(v, 60)) for k, v in got], [(k, Facts.short(v, 60)) for k, v in exp]), where=loc, instance='%s / %s / %s' % (Facts.short(m.fe, 80), Facts.short(st, 60), Facts.short(ev, 40)))
